@@ -172,35 +172,166 @@ def metric_enum_class(prog: Program) -> Class:
     return prog.cls("metrics.metrics:Metric")
 
 
-def make_metric_objs(prog: Program, decreasing: bool, name: str = "M"):
-    """(_Metric object, Metric enum member object) with the given direction."""
-    mv = Obj(metric_value_class(prog), {"name": name, "long_name": name, "decreasing": decreasing, "_metric_function": Sym("kernel:" + name)})
+def _metric_ctor_params(prog: Program) -> list[str]:
+    """Names the positional arguments of `_Metric(...)` bind to: the explicit constructor's parameters,
+    else the dataclass fields in declaration order."""
+    mv = metric_value_class(prog)
+    init = mv.lookup("__init__")
+    if init is not None:
+        return [p.name for p in init.call_params if p.kind in ("pos", "kwonly")]
+    return [st.target.id for st in mv.node.body if isinstance(st, ast.AnnAssign) and isinstance(st.target, ast.Name)]
+
+
+def _bound_member_args(prog: Program, call: ast.Call) -> dict[str, ast.expr]:
+    names = _metric_ctor_params(prog)
+    d = {}
+    for i, a in enumerate(call.args):
+        if i < len(names):
+            d[names[i]] = a
+    for kw in call.keywords:
+        if kw.arg:
+            d[kw.arg] = kw.value
+    return d
+
+
+def metric_layout(prog: Program) -> dict:
+    """How a `_Metric` is built, read from the registry `X = _Metric(...)` itself rather than from
+    field names: which constructor argument is the direction flag (the one that is a bool constant in
+    every member), the kernel (resolves to a function) and the two names (string constants, in order);
+    and what the flag means, decided by running score_beats_threshold(0, 1) / (1, 0) on an object built
+    with the flag set: True/False = 'lower is better'."""
+    lay = getattr(prog, "_metric_layout", None)
+    if lay is not None:
+        return lay
+    me = metric_enum_class(prog)
+    mv = metric_value_class(prog)
+    members = {}
+    for member, val in me.class_assigns().items():
+        if isinstance(val, ast.Call) and prog.resolve_class_expr(me.module, val.func) is mv:
+            members[member] = _bound_member_args(prog, val)
+    if not members:
+        raise AnchorMissing("Metric registry is empty")
+    common_keys = set.intersection(*[set(d) for d in members.values()])
+    names = [n for n in _metric_ctor_params(prog) if n in common_keys] + sorted(common_keys - set(_metric_ctor_params(prog)))
+    dir_key = [k for k in names if all(isinstance(d[k], ast.Constant) and isinstance(d[k].value, bool) for d in members.values())]
+    str_keys = [k for k in names if all(isinstance(d[k], ast.Constant) and isinstance(d[k].value, str) for d in members.values())]
+    ker_key = [k for k in names if k not in dir_key and k not in str_keys and all(isinstance(prog.resolve_dotted(me.module, d[k]), Func) for d in members.values())]
+    if len(dir_key) != 1 or len(ker_key) != 1 or len(str_keys) < 1:
+        raise AnchorMissing(f"Metric registry: direction {dir_key}, kernel {ker_key}, names {str_keys} not identifiable in _Metric(...) calls")
+    lay = {"dir": dir_key[0], "kernel": ker_key[0], "name": str_keys[0], "long_name": str_keys[1] if len(str_keys) > 1 else None, "members": members}
+    prog._metric_layout = lay
+    lay["dir_means_lower"] = True
+    probe = _build_metric_value(prog, lay, True, "M", Sym("kernel:M"))
+    lay["dir_means_lower"] = metric_direction(prog, probe)
+    return lay
+
+
+def _build_metric_value(prog: Program, lay: dict, flag: bool, name: str, kernel, long_name=None) -> Obj:
+    from ..absval import Interp
+
+    mv = metric_value_class(prog)
+    vals = {lay["dir"]: flag, lay["kernel"]: kernel, lay["name"]: name}
+    if lay["long_name"]:
+        vals[lay["long_name"]] = long_name or name
+    obj = Obj(mv, {})
+    init = mv.lookup("__init__")
+    if init is not None:
+        args = {p.name: vals[p.name] for p in init.call_params if p.name in vals}
+        out = Interp(prog, init, args, self_obj=obj).run()
+        if out.kind == "raise":
+            raise AnchorMissing(f"{init.qual} raises on the registry's own argument pattern: {out.value!r}")
+    else:
+        for k, v in vals.items():
+            obj.attrs[k] = v
+    return obj
+
+
+def metric_direction(prog: Program, m: Obj) -> bool:
+    """True if `m` (a Metric member or a _Metric) is a 'lower is better' metric: decided by its
+    score_beats_threshold on (0, 1) and (1, 0), not by a field name."""
+    from ..absval import Interp
+
+    mvo = m.attrs.get("value", m) if m.cls is metric_enum_class(prog) else m
+    cache = prog.__dict__.setdefault("_metric_dir_cache", {})
+    hit = cache.get(id(mvo))
+    if hit is not None and hit[0] is mvo:
+        return hit[1]
+    sbt = mvo.cls.lookup("score_beats_threshold")
+    if sbt is None or len(sbt.call_params) < 2:
+        raise AnchorMissing(f"{mvo.cls.qual}.score_beats_threshold(score, threshold)")
+    ps = [p.name for p in sbt.call_params][:2]
+    got = []
+    for sc, th in ((0.0, 1.0), (1.0, 0.0)):
+        out = Interp(prog, sbt, {ps[0]: sc, ps[1]: th}, self_obj=mvo).run()
+        got.append(out.value if out.kind == "return" and isinstance(out.value, bool) else None)
+    if got == [True, False]:
+        r = True
+    elif got == [False, True]:
+        r = False
+    else:
+        raise Undecided(f"{sbt.qual}: direction of the metric not evaluable (score 0 vs threshold 1: {got[0]!r}, 1 vs 0: {got[1]!r})")
+    cache[id(mvo)] = (mvo, r)
+    return r
+
+
+def metric_flag_attr(prog: Program, attr: str):
+    """What `<metric>.<attr>` says about the direction, by reading it on a 'lower is better' and on a
+    'higher is better' metric object: 'lower' (true exactly on the former), 'higher', a constant truth
+    value (e.g. a method object used as a flag), or None when it is not a truth value at all."""
+    cache = prog.__dict__.setdefault("_metric_flag_attr", {})
+    if attr in cache:
+        return cache[attr]
+    from ..absval import BoundMethod, Interp
+
+    host = metric_value_class(prog).lookup("score_beats_threshold")
+    res = None
+    for which in (1, 0):  # the enum member first, the value object second
+        got = []
+        for dec in (True, False):
+            objs = make_metric_objs(prog, dec)
+            try:
+                v = Interp(prog, host, {}, self_obj=objs[0]).get_attr(objs[which], attr, host.node)
+            except (Undecided, AnchorMissing, KeyError, AttributeError):
+                v = None
+            got.append(v)
+        if all(isinstance(v, bool) for v in got):
+            res = "lower" if got == [True, False] else "higher" if got == [False, True] else got[0] if got[0] == got[1] else None
+            break
+        if all(isinstance(v, (BoundMethod, Func)) for v in got):
+            res = True  # a method object read as a flag is always true
+            break
+    cache[attr] = res
+    return res
+
+
+def make_metric_objs(prog: Program, decreasing: bool, name: str = "M", kernel=None, long_name=None):
+    """(_Metric object, Metric enum member object) with the given direction (True = lower is better)."""
+    lay = metric_layout(prog)
+    flag = decreasing if lay["dir_means_lower"] else not decreasing
+    mv = _build_metric_value(prog, lay, flag, name, kernel if kernel is not None else Sym("kernel:" + name), long_name)
     me = Obj(metric_enum_class(prog), {"value": mv, "_value_": mv, "_name_": name})
     return mv, me
 
 
 def metric_registry(prog: Program) -> dict[str, dict]:
-    """Metric enum members -> {'name', 'long_name', 'decreasing', 'kernel' (Func|None), 'node'}
-    read from the class body `X = _Metric(name, long_name, decreasing, kernel)`."""
+    """Metric enum members -> {'name', 'long_name', 'decreasing' (True = lower is better), 'kernel' (Func|None), 'node'}
+    read from the class body `X = _Metric(...)` by the layout of those calls (metric_layout)."""
     me = metric_enum_class(prog)
     mv = metric_value_class(prog)
-    fields = [st.target.id for st in mv.node.body if isinstance(st, ast.AnnAssign) and isinstance(st.target, ast.Name)]
+    lay = metric_layout(prog)
     out = {}
     for member, val in me.class_assigns().items():
         if not (isinstance(val, ast.Call) and prog.resolve_class_expr(me.module, val.func) is mv):
             continue
-        d = {}
-        for i, a in enumerate(val.args):
-            if i < len(fields):
-                d[fields[i]] = a
-        for kw in val.keywords:
-            if kw.arg:
-                d[kw.arg] = kw.value
+        d = _bound_member_args(prog, val)
         rec = {"member": member, "node": val}
-        for k in ("name", "long_name", "decreasing"):
-            v = d.get(k)
+        for k, slot in (("name", lay["name"]), ("long_name", lay["long_name"])):
+            v = d.get(slot) if slot else None
             rec[k] = v.value if isinstance(v, ast.Constant) else None
-        kf = d.get("_metric_function")
+        v = d.get(lay["dir"])
+        flag = v.value if isinstance(v, ast.Constant) and isinstance(v.value, bool) else None
+        rec["decreasing"] = None if flag is None else (flag if lay["dir_means_lower"] else not flag)
+        kf = d.get(lay["kernel"])
         r = prog.resolve_dotted(me.module, kf) if kf is not None else None
         rec["kernel"] = r if isinstance(r, Func) else None
         rec["kernel_expr"] = kf
@@ -346,12 +477,16 @@ class MatcherAtoms:
             return lambda a, key=key, table=table: a[key] in table
         # attributes: option flags, metric direction, properties
         if isinstance(e, ast.Attribute):
-            if e.attr in ("decreasing", "increasing") and self.is_metric_expr(e.value):
-                key = "dec:" + self.metric_key(e.value)
-                form.domains.setdefault(key, [False, True])
-                if e.attr == "decreasing":
-                    return lambda a, key=key: a[key]
-                return lambda a, key=key: not a[key]
+            if self.is_metric_expr(e.value):
+                pol = metric_flag_attr(self.prog, e.attr)
+                if pol in ("lower", "higher"):
+                    key = "dec:" + self.metric_key(e.value)
+                    form.domains.setdefault(key, [False, True])
+                    if pol == "lower":
+                        return lambda a, key=key: a[key]
+                    return lambda a, key=key: not a[key]
+                if pol in (True, False):
+                    return lambda a, pol=pol: pol
             if isinstance(e.value, ast.Name) and e.value.id == self.f.self_name and self.f.cls is not None:
                 p = init_param_of_attr(self.f.cls, e.attr)
                 if p:
